@@ -47,6 +47,10 @@ def _verbatim_pass(P, shapes, full, problems, counts):
             return
         mk = Unk('marker#%d' % i, kinds=['str'], taint=['INPUT'])
         keep = {'x-unknown': mk}
+        # unknown option names that are fragments of a known one (a membership test written against a
+        # string instead of a tuple would swallow them)
+        for k_ in ('len', 'n', 'gth', 'enc', 'form'):
+            keep[k_] = Unk('%s#%d' % (k_, i), kinds=['str'], taint=['INPUT'])
         for k_ in list(opts.items):
             if k_ != 'length':
                 del opts.items[k_]
